@@ -12,6 +12,11 @@ Instances:
 """
 from .facts import AnalysisBroken
 
+
+def calls_in_(fn):
+    return [e for _, e in fn.elements() if e['k'] in ('CallExpr', 'CXXMemberCallExpr')]
+
+
 EXPECT = [(0xFFFFFFFF, 0x20202020, 0x00000000),
           (0x00FFFFFF, 0x00202020, 0xFF000000),
           (0x0000FFFF, 0x00002020, 0xFFFF0000),
@@ -99,17 +104,39 @@ M32 = 0xFFFFFFFF
 
 
 def abstract_chain(fn, vid):
-    """The padding chain of a normaliser written with a loop (or any other control flow over constants): a bounded abstract
-    execution over {constant, x, x & mask}.  Branches on constants are followed; a branch on `(x & M) == C` (or `x == C`) is a
-    padding case whose true edge must return `x & R` or 0; execution continues on its false edge.  Returns (chain, identity_tail)
-    or (None, False) when the function has another shape."""
-    chain = []
-    env = {}
-    state = {'b': fn.entry, 'steps': 0}
+    """The padding cases of a normaliser with arbitrary control flow over constants (if chain, loop over byte positions, ...): a
+    bounded abstract execution over {constant, (x >> s) & m}.  Branches on constants are followed; a branch on `((x >> s) & m) == C`
+    forks.  Every complete path yields (bytes of x it found equal to C, result): the result must be `x & R` (or 0, or x itself).
+    Returns ([(mask, pad, keep)] most padded first, identity_on_the_path_without_matches) or (None, False) when the function has
+    another shape."""
+    paths = []
+
+    def xf(v):
+        return v if v and v[0] == 'xf' else None
+
+    def arith(op, a, b_):
+        if not a or not b_:
+            return ('unk',)
+        if a[0] == 'k' and b_[0] == 'k':
+            x, y = a[1], b_[1]
+            r = {'+': x + y, '-': x - y, '*': x * y, '<<': (x << y) if 0 <= y < 64 else 0, '>>': (x >> y) if 0 <= y < 64 else 0, '&': x & y, '|': x | y,
+                 '^': x ^ y, '<': int(x < y), '>': int(x > y), '<=': int(x <= y), '>=': int(x >= y), '==': int(x == y), '!=': int(x != y),
+                 '&&': int(bool(x) and bool(y)), '||': int(bool(x) or bool(y))}.get(op)
+            return ('k', r & M32 if r is not None and r >= 0 else r) if r is not None else ('unk',)
+        if op == '&':
+            for p_, q_ in ((a, b_), (b_, a)):
+                if q_[0] == 'k' and xf(p_):
+                    return ('xf', p_[1], p_[2] & q_[1] & M32)
+        if op == '>>' and xf(a) and b_[0] == 'k' and 0 <= b_[1] < 32:
+            return ('xf', a[1] + b_[1], (a[2] >> b_[1]) & M32)
+        if op in ('==', '!='):
+            for p_, q_ in ((a, b_), (b_, a)):
+                if q_[0] == 'k' and xf(p_):
+                    return ('test', (p_[2] << p_[1]) & M32, (q_[1] << p_[1]) & M32, op == '==')
+        return ('unk',)
 
     def ev_block(b, env):
-        val = {}
-        ret = [None]
+        val, ret = {}, [None]
         for e in fn.blocks[b]['el']:
             k, i = e['k'], e['i']
             c = e.get('c') or []
@@ -117,14 +144,11 @@ def abstract_chain(fn, vid):
             if e.get('v') is not None and k != 'DeclRefExpr':
                 val[i] = ('k', e['v'] & M32 if e['v'] >= 0 else e['v'])
             elif k == 'DeclRefExpr':
-                if e.get('v') is not None:
-                    val[i] = ('k', e['v'])
-                else:
-                    val[i] = ('lv', e.get('vid'))
+                val[i] = ('k', e['v']) if e.get('v') is not None else ('lv', e.get('vid'))
             elif k.endswith('CastExpr') or k in ('ParenExpr', 'ExprWithCleanups', 'ConstantExpr'):
                 v = g(0)
-                if v and v[0] == 'lv' and (e.get('ck') == 'LValueToRValue'):
-                    v = ('x',) if v[1] == vid else env.get(v[1], ('unk',))
+                if v and v[0] == 'lv' and e.get('ck') == 'LValueToRValue':
+                    v = ('xf', 0, M32) if v[1] == vid else env.get(v[1], ('unk',))
                 val[i] = v
             elif k == 'UnaryOperator':
                 v = g(0)
@@ -137,6 +161,8 @@ def abstract_chain(fn, vid):
                     val[i] = ('k', old if e['op'].startswith('post') else old + d)
                 elif e['op'] == '!' and v and v[0] == 'k':
                     val[i] = ('k', int(not v[1]))
+                elif e['op'] == '!' and v and v[0] == 'test':
+                    val[i] = ('test', v[1], v[2], not v[3])
                 else:
                     val[i] = ('unk',)
             elif k in ('BinaryOperator', 'CompoundAssignOperator'):
@@ -147,9 +173,8 @@ def abstract_chain(fn, vid):
                     val[i] = a
                     continue
                 if k == 'CompoundAssignOperator':
-                    base = op[:-1]
-                    cur = env.get(a[1], ('unk',)) if a and a[0] == 'lv' else ('unk',)
-                    r = arith(base, cur, b_)
+                    cur = (('xf', 0, M32) if a[1] == vid else env.get(a[1], ('unk',))) if a and a[0] == 'lv' else ('unk',)
+                    r = arith(op[:-1], cur, b_)
                     if a and a[0] == 'lv':
                         env[a[1]] = r
                     val[i] = a
@@ -161,86 +186,77 @@ def abstract_chain(fn, vid):
                         iv = d.get('init')
                         v = val.get(iv) if isinstance(iv, int) else None
                         if v and v[0] == 'lv':
-                            v = ('x',) if v[1] == vid else env.get(v[1], ('unk',))
+                            v = ('xf', 0, M32) if v[1] == vid else env.get(v[1], ('unk',))
                         env[d['vid']] = v if v else ('unk',)
             elif k == 'ReturnStmt':
                 v = g(0)
                 if v and v[0] == 'lv':
-                    v = ('x',) if v[1] == vid else env.get(v[1], ('unk',))
+                    v = ('xf', 0, M32) if v[1] == vid else env.get(v[1], ('unk',))
                 ret[0] = v if v else ('unk',)
             else:
                 val[i] = ('unk',)
         return val, ret[0]
 
-    def arith(op, a, b_):
-        if not a or not b_:
-            return ('unk',)
-        if a[0] == 'k' and b_[0] == 'k':
-            x, y = a[1], b_[1]
-            try:
-                r = {'+': x + y, '-': x - y, '*': x * y, '<<': (x << y) if 0 <= y < 64 else 0, '>>': (x >> y) if 0 <= y < 64 else 0, '&': x & y, '|': x | y,
-                     '^': x ^ y, '<': int(x < y), '>': int(x > y), '<=': int(x <= y), '>=': int(x >= y), '==': int(x == y), '!=': int(x != y)}.get(op)
-            except Exception:
-                r = None
-            return ('k', r & M32 if r is not None and r >= 0 else r) if r is not None else ('unk',)
-        if op == '&':
-            for p_, q_ in ((a, b_), (b_, a)):
-                if q_[0] == 'k' and p_[0] == 'x':
-                    return ('xand', q_[1] & M32)
-                if q_[0] == 'k' and p_[0] == 'xand':
-                    return ('xand', p_[1] & q_[1] & M32)
-        if op in ('==', '!='):
-            for p_, q_ in ((a, b_), (b_, a)):
-                if q_[0] == 'k' and p_[0] in ('x', 'xand'):
-                    return ('test', M32 if p_[0] == 'x' else p_[1], q_[1] & M32, op == '==')
-        return ('unk',)
-
-    b = fn.entry
-    ident = False
-    for _ in range(200):
+    def go(b, env, passed, steps):
+        if steps > 120 or len(paths) > 64:
+            raise AnalysisBroken('abstract normaliser: too many steps')
+        env = dict(env)
         val, ret = ev_block(b, env)
         if ret is not None:
-            ident = ret == ('x',)
-            break
+            paths.append((passed, ret))
+            return
         succ = fn.blocks[b]['succ']
         if not succ or b == fn.exit:
-            break
+            paths.append((passed, None))
+            return
         if len(succ) == 1:
-            if succ[0] is None:
-                break
-            b = succ[0]
-            continue
+            if succ[0] is not None:
+                go(succ[0], env, passed, steps + 1)
+            return
         cond = (fn.blocks[b].get('term') or {}).get('cond')
         cv = val.get(cond) if cond is not None else None
         if cv and cv[0] == 'lv':
             cv = env.get(cv[1], ('unk',))
-        if cv and cv[0] == 'k':
+        if cv and cv[0] == 'k' and len(succ) == 2:
             nxt = succ[0] if cv[1] else succ[1]
-            if nxt is None:
-                return None, False
-            b = nxt
-            continue
+            if nxt is not None:
+                go(nxt, env, passed, steps + 1)
+            return
         if cv and cv[0] == 'test' and len(succ) == 2 and None not in succ:
             tb, fb_ = (succ[0], succ[1]) if cv[3] else (succ[1], succ[0])
-            # the true edge: straight to a return of x & R or 0
-            e2 = dict(env)
-            bb, res = tb, None
-            for _ in range(6):
-                v2, r2 = ev_block(bb, e2)
-                if r2 is not None:
-                    res = 0 if r2 == ('k', 0) else (r2[1] if r2[0] == 'xand' else None)
-                    break
-                ss = fn.blocks[bb]['succ']
-                if len(ss) != 1 or ss[0] is None:
-                    break
-                bb = ss[0]
-            if res is None:
-                return None, False
-            chain.append((cv[1], cv[2], res))
-            b = fb_
-            continue
+            go(tb, env, passed + [(cv[1], cv[2])], steps + 1)
+            go(fb_, env, passed, steps + 1)
+            return
+        raise AnalysisBroken('abstract normaliser: branch on a value of unknown shape')
+
+    try:
+        go(fn.entry, {}, [], 0)
+    except (AnalysisBroken, RecursionError):
         return None, False
-    return (chain if chain else None), ident
+    chain, ident = {}, False
+    for passed, ret in paths:
+        if ret is None:
+            return None, False
+        if not passed:
+            ident = ret == ('xf', 0, M32)
+            continue
+        m = c = 0
+        for mm, cc in passed:
+            if m & mm:
+                return None, False
+            m |= mm
+            c |= cc
+        if ret == ('k', 0):
+            r = 0
+        elif ret[0] == 'xf' and ret[1] == 0:
+            r = ret[2]
+        else:
+            return None, False
+        if chain.get(m, (c, r)) != (c, r):
+            return None, False
+        chain[m] = (c, r)
+    out = sorted(((m, c, r) for m, (c, r) in chain.items()), key=lambda t: -bin(t[0]).count('1'))
+    return (out if out else None), ident
 
 
 def normalisers(fx):
@@ -350,6 +366,10 @@ def check(run, fx, rule):
             raise AnalysisBroken('%s: parameter %s not found' % (q, pname))
         vid = ps[0]['vid']
         uses = _normalised_uses(fn, vid, norm_names)
+        through = [e for e in calls_in_(fn) if e.get('fq') in norm_names and e.get('args') and _is_var(fn, e['args'][0], vid)]
+        if not uses and through:
+            run.held(rule, '%s(%s) only enters the normaliser' % (q, pname), fn.loc(through[0]), 'the raw tag is used for nothing but the normaliser call')
+            continue
         if not uses:
             raise AnalysisBroken('%s: the tag parameter is never used' % q)
         for e, st in uses:
@@ -389,7 +409,10 @@ def check(run, fx, rule):
                             run.held(rule, inst, mi.loc(e), 'use lies after the padding chain')
     else:
         uses = _normalised_uses(mi, svid, norm_names)
-        if not uses:
+        through = [e for e in calls_in_(mi) if e.get('fq') in norm_names and e.get('args') and _is_var(mi, e['args'][0], svid)]
+        if not uses and through:
+            run.held(rule, 'makeAndInitialize(script) only enters the normaliser', mi.loc(through[0]), 'the raw script tag is used for nothing but %s(script)' % through[0]['fq'].split('::')[-1])
+        elif not uses:
             raise AnalysisBroken('makeAndInitialize: neither an in-line padding chain nor a use of the script parameter was found')
         for e, st in uses:
             inst = 'makeAndInitialize(script) -> %s' % e.get('fq', e['k'])
